@@ -4,16 +4,20 @@
   Model: GLua/Model/IoFile.lean = /repo/iolib.go (lFile) + utils.go (readBufioSize/readBufioLine) WITH
   fixes/C19-1…5 applied, tied to the code by the correspondence run of every check; `IoFile.Unfixed.*` is the
   transcription of the unchanged functions, used here to prove that the unchanged tree violates the property.
-  Spec: GLua/Spec/File.lean (bytes, cursor, mode, closed).
+  Spec: GLua/Spec/File.lean (bytes, cursor, mode, closed; `*n` = fscanf "%lf" on the texts where C leaves no room;
+  the `io` library level: default files, io.lines, io.type).
+  Lemmas for `*n`: GLua/Proofs/IoScan.lean (the model of fmt.Fscanf / bufio.ReadRune); for the library level:
+  GLua/Proofs/IoWorld.lean.
 
   `R` is the size of the reader's buffer (4096 in the code): every theorem holds for every `R > 0`, and for
   every state satisfying the invariant, i.e. for every amount of read-ahead `b = |rbuf|`.
 -/
 import GLua.Proofs.IoSim
+import GLua.Proofs.IoWorld
 
 namespace GLua.Props.C19
 open GLua GLua.IoFile
-open GLua.FileSpec (Bytes Fmt Whence VBuf Mode Op Res Stream)
+open GLua.FileSpec (Bytes Fmt Whence VBuf Mode Op Res Stream Slot WOp WStream)
 
 /-! ## cursor_invariant -/
 
@@ -33,9 +37,10 @@ theorem cursor_invariant_partial (R : Nat) (hR : 0 < R) (pend : Bool) (f : LFile
     (hw : ∀ s, op = .write s → pend = false)
     (hro : ∀ m, op = .reopen m → f.closed = true)
     (hnb : isBuffering op = false)
-    (hcr : usesLine op = true → (13 : UInt8) ∉ f.disk) :
+    (hcr : usesLine op = true → (13 : UInt8) ∉ f.disk)
+    (hfp : opProved (absOf f) op = true) :
     Inv (step R f op).1 ∧ cursor (step R f op).1 = (FileSpec.step (absOf f) op).1.cur :=
-  have hs := step_sim hR h op hw hro hnb hcr
+  have hs := step_sim hR h op hw hro hnb hcr hfp
   ⟨hs.2.2.inv, by rw [hs.2.1]; rfl⟩
 
 /-- every read function keeps the invariant and the stream, whatever is buffered (`b` universally quantified):
@@ -74,7 +79,7 @@ theorem io_refines_cursor_full_fails : ¬ io_refines_cursor_full := by
     CR-free data, the model of gopher-lua's handle returns exactly the Spec's results, and its final state
     abstracts to the Spec's final state: same bytes on disk, same cursor, same closed flag. -/
 theorem io_refines_cursor_partial (R : Nat) (hR : 0 < R) (d : Bytes) (m : Mode) (ops : List Op)
-    (hd : Disciplined ops) (hnb : noBuffering ops) (hls : lineSafe d ops) :
+    (hd : Disciplined ops) (hnb : noBuffering ops) (hls : lineSafe d ops) (hpl : plainReads ops) :
     (run R (ioOpenFile d m) ops).2 = (FileSpec.run (FileSpec.openStream d m) ops).2 ∧
     absOf (run R (ioOpenFile d m) ops).1 = (FileSpec.run (FileSpec.openStream d m) ops).1 := by
   have hdisk : lineSafe (ioOpenFile d m).disk ops := by
@@ -83,15 +88,15 @@ theorem io_refines_cursor_partial (R : Nat) (hR : 0 < R) (d : Bytes) (m : Mode) 
     · refine Or.inr ⟨?_, h2⟩
       cases m <;> simp [ioOpenFile, h1]
   have hcl : (ioOpenFile d m).closed = false := by cases m <;> rfl
-  have := run_sim hR ops (sim_open d m) hd.1 (by rw [hcl]; exact hd.2) hnb hdisk
+  have := run_sim hR ops (sim_open d m) hd.1 (by rw [hcl]; exact hd.2) hnb hdisk hpl
   rw [absOf_open] at this
   exact this
 
 /-- in particular: after the history, the bytes on disk are the Spec's byte sequence. -/
 theorem final_disk_is_spec_bytes (R : Nat) (hR : 0 < R) (d : Bytes) (m : Mode) (ops : List Op)
-    (hd : Disciplined ops) (hnb : noBuffering ops) (hls : lineSafe d ops) :
+    (hd : Disciplined ops) (hnb : noBuffering ops) (hls : lineSafe d ops) (hpl : plainReads ops) :
     (run R (ioOpenFile d m) ops).1.disk = (FileSpec.run (FileSpec.openStream d m) ops).1.bytes := by
-  have := (io_refines_cursor_partial R hR d m ops hd hnb hls).2
+  have := (io_refines_cursor_partial R hR d m ops hd hnb hls hpl).2
   rw [← this]; rfl
 
 /-! ### the unchanged tree violates the property (DESIGN §1): machine-checked witnesses -/
@@ -139,6 +144,209 @@ theorem unfixed_lines_split_long_lines :
     (FileSpec.run (FileSpec.openStream d .r) [.lines, .iter]).2 = [.ok, .vals [some [97, 98, 99, 100, 101, 102]]] := by
   refine ⟨by decide, by decide, by decide⟩
 
+/-! ## read_number (`*n`) -/
+
+/-- **read_number (proved part)**: from EVERY state satisfying the cursor invariant (any buffer size `R`, any amount
+    of read-ahead, the numeral anywhere relative to the buffer boundary), `*n` on a text of `numProved` — white space
+    without a line feed, then the end of the file or a decimal numeral followed by white space / the end of the
+    file — delivers exactly the Spec's result (the numeral, or nil at the end of the file) and leaves the cursor
+    exactly where the Spec puts it (right after the numeral), consuming exactly those bytes of the stream. -/
+theorem read_number_partial (R : Nat) (hR : 0 < R) (f : LFile) (h : Readable f) (hg : numProved (stream f) = true) :
+    ∃ f' out, Reads f f' out ∧
+      readOne R f .num = (f', toOut (FileSpec.readFmt f.disk (cursor f) .num).1) ∧
+      cursor f' = (FileSpec.readFmt f.disk (cursor f) .num).2 := by
+  obtain ⟨f', out, hr, he, hc⟩ := fscanNumber_sim hR h hg
+  exact ⟨f', out, hr, he, hc.symm⟩
+
+/-- **read_number (full statement)**: the same on every text whose reading the Spec fixes (`numSpecified`: any white
+    space incl. line feeds, decimal and hexadecimal numerals, nil when no numeral starts at the cursor). -/
+def read_number_full : Prop :=
+  ∀ (R : Nat), 0 < R → ∀ (f : LFile), Readable f → FileSpec.numSpecified (stream f) = true →
+    (readOne R f .num).2 = toOut (FileSpec.readFmt f.disk (cursor f) .num).1 ∧
+    cursor (readOne R f .num).1 = (FileSpec.readFmt f.disk (cursor f) .num).2
+
+/-- the full statement is false of the code: a line feed before the numeral makes `fmt.Fscanf` fail
+    (open finding C19-readnum-rejects-newline). -/
+theorem read_number_full_fails : ¬ read_number_full := by
+  intro h
+  have := (h 4096 (by decide) (ioOpenFile [10, 49, 50] .r) (readable_open_r _) (by decide +kernel)).1
+  revert this; decide +kernel
+
+/-- the guard "no line feed" of `read_number_partial` is NECESSARY, not a proof-effort gap: from every state with the
+    invariant, whenever a line feed is among the white space at the cursor — whatever comes after it — `*n` takes the
+    error exit (nil, "unexpected newline", 1), the cursor stops right behind the first line feed, and the result is
+    none the Spec could prescribe (a value or nil). -/
+theorem read_number_newline_always_fails (R : Nat) (hR : 0 < R) (f : LFile) (h : Readable f) (ws T : Bytes)
+    (hS : stream f = ws ++ 10 :: T) (hws : ∀ c ∈ ws, FileSpec.isBlank c = true ∧ c ≠ 10) :
+    (readOne R f .num).2 = .err ∧ cursor (readOne R f .num).1 = cursor f + ws.length + 1 ∧
+    (readOne R f .num).2 ≠ toOut (FileSpec.readFmt f.disk (cursor f) .num).1 := by
+  obtain ⟨f', hr, he⟩ := fscanNumber_newline hR h hS hws
+  have he' : readOne R f .num = (f', .err) := by simpa only [readOne] using he
+  rw [he']
+  refine ⟨rfl, by rw [hr.cur]; simp; omega, ?_⟩
+  cases (FileSpec.readFmt f.disk (cursor f) .num).1 <;> simp [toOut]
+
+example : ∃ (f : LFile) (ws T : Bytes), Readable f ∧ stream f = ws ++ 10 :: T ∧ ws ≠ [] ∧
+    (∀ c ∈ ws, FileSpec.isBlank c = true ∧ c ≠ 10) :=
+  ⟨ioOpenFile [32, 9, 10, 49] .r, [32, 9], [49], readable_open_r _, by decide, by decide, by decide⟩
+
+/-- the recorded deviations of `*n` and of the format loop, each on its witness (Model vs Spec, `decide`):
+    a line feed among the leading white space; a hexadecimal integer; an exponent letter that is consumed though no
+    numeral follows (the Spec leaves the cursor at 0, the Model at 2); earlier results dropped when a later `*n`
+    fails; the lone star. -/
+theorem read_number_deviations :
+    -- "1\n2\n": read("*n","*n")
+    (run 4096 (ioOpenFile [49, 10, 50, 10] .r) [.read [.num, .num]]).2 = [.fail] ∧
+    (FileSpec.run (FileSpec.openStream [49, 10, 50, 10] .r) [.read [.num, .num]]).2 = [.vals [some [49], some [50]]] ∧
+    -- "0x10 "
+    (run 4096 (ioOpenFile [48, 120, 49, 48, 32] .r) [.read [.num]]).2 = [.fail] ∧
+    (FileSpec.run (FileSpec.openStream [48, 120, 49, 48, 32] .r) [.read [.num]]).2 = [.vals [some [48, 120, 49, 48]]] ∧
+    -- "e5 x": read("*n"); read("*a")
+    (run 4096 (ioOpenFile [101, 53, 32, 120] .r) [.read [.num], .read [.all]]).2 = [.fail, .vals [some [32, 120]]] ∧
+    (FileSpec.run (FileSpec.openStream [101, 53, 32, 120] .r) [.read [.num], .read [.all]]).2 =
+      [.vals [none], .vals [some [101, 53, 32, 120]]] ∧
+    -- "5 abc": read("*n","*n")
+    (run 4096 (ioOpenFile [53, 32, 97, 98, 99] .r) [.read [.num, .num]]).2 = [.fail] ∧
+    (FileSpec.run (FileSpec.openStream [53, 32, 97, 98, 99] .r) [.read [.num, .num]]).2 = [.vals [some [53], none]] ∧
+    -- read("*")
+    (run 4096 (ioOpenFile [97] .r) [.read [.str [42]]]).2 = [.vals []] ∧
+    (FileSpec.run (FileSpec.openStream [97] .r) [.read [.str [42]]]).2 = [.raise] := by
+  refine ⟨by decide +kernel, by decide +kernel, by decide +kernel, by decide +kernel, by decide +kernel, by decide +kernel, by decide +kernel, by decide +kernel, by decide +kernel, by decide +kernel⟩
+
+/-- non-vacuity of `read_number_partial`: the numeral "-12.5e1" after three blanks, read from a state with read-ahead
+    (4-byte buffer, one byte already delivered), followed by a blank. -/
+example :
+    let f := (step 4 (ioOpenFile [120, 32, 9, 32, 45, 49, 50, 46, 53, 101, 49, 32, 55] .r) (.read [.count 1])).1
+    f.rbuf.length = 3 ∧ numProved (stream f) = true ∧
+    (readOne 4 f .num).2 = .val [45, 49, 50, 46, 53, 101, 49] ∧ cursor (readOne 4 f .num).1 = 11 := by
+  refine ⟨by decide +kernel, by decide +kernel, by decide +kernel, by decide +kernel⟩
+
+/-! ## the `io` library level: default files, `io.lines`, `io.type` -/
+
+/-- **io_world_refines_cursor (proved part)**: every history of handle methods (`f:read` incl. `*n` and invalid
+    formats, `f:write`, `f:lines`, `f:seek`, …) AND `io` library calls — `io.input/io.output` (handle or file name),
+    `io.read`, `io.write`, `io.flush`, `io.close`, `io.lines(name)` and its iterator run to the end, `io.lines()`,
+    `io.type`, `tostring` — that stays within the guard `wguard` (evaluated along the Spec's states: ISO C discipline,
+    one handle at a time, default slots holding a handle of the file — current or stale —, unbuffered writer,
+    CR-free line reads, `*n` on `numProved` texts, formats of `fmtsProved`, none of the recorded deviations) yields
+    exactly the Spec's results, and the final world abstracts to the Spec's final world: same bytes on disk, same
+    cursor, same closed flag, same default slots.  For every buffer size, content and open mode. -/
+theorem io_world_refines_cursor_partial (R : Nat) (hR : 0 < R) (d : Bytes) (m : Mode) (ops : List WOp)
+    (hg : wguard false (openWStream d m) ops = true) :
+    (wrun R (openWorld d m) ops).2 = (FileSpec.wrun (openWStream d m) ops).2 ∧
+    absW (wrun R (openWorld d m) ops).1 = (FileSpec.wrun (openWStream d m) ops).1 := by
+  have := wrun_sim hR ops (pend := false) (w := openWorld d m) (sim_open d m) (by rw [absW_openWorld]; exact hg)
+  rw [absW_openWorld] at this
+  exact this
+
+/-- what the property itself demands of a history (no proof-effort guards, no exclusion of deviations): the ISO C
+    discipline, one handle at a time, default slots that hold a handle of the file, reads whose meaning is fixed. -/
+def wspecified (pend : Bool) (w : WStream) : List WOp → Bool
+  | [] => true
+  | o :: os =>
+    FileSpec.slotOk w o &&
+    (match FileSpec.effOp w o with
+     | some (.write _) => !pend
+     | some (.reopen _) => w.s.closed
+     | some (.read fs) => w.s.closed || !w.s.canRead ||
+         FileSpec.readSpecified w.s.bytes w.s.cur (if fs = [] then [.line] else fs)
+     | _ => true) &&
+    wspecified (wpendNext pend w o) (FileSpec.wstep w o).1 os
+
+/-- **io_world_refines_cursor (full statement)** -/
+def io_world_refines_cursor_full : Prop :=
+  ∀ (R : Nat), 0 < R → ∀ (d : Bytes) (m : Mode) (ops : List WOp), wspecified false (openWStream d m) ops = true →
+    (wrun R (openWorld d m) ops).2 = (FileSpec.wrun (openWStream d m) ops).2 ∧
+    absW (wrun R (openWorld d m) ops).1 = (FileSpec.wrun (openWStream d m) ops).1
+
+/-- false of the code: `io.output(name)` does not truncate (open finding C19-io-output-no-truncate) — the file
+    "0123" ends as "AB23", the Spec's as "AB". -/
+theorem io_world_refines_cursor_full_fails : ¬ io_world_refines_cursor_full := by
+  intro h
+  have := (h 4096 (by decide) [48, 49, 50, 51] .r [.h .close, .ioOutputName, .ioWrite [65, 66], .ioClose] (by decide +kernel)).2
+  revert this; decide +kernel
+
+/-- the deviations at the library level on their witnesses: `io.output(name)` keeps the old content; a closed handle is
+    accepted by `io.input` / `io.output`, and `io.lines()` hands out an iterator over it (the Spec raises in all three). -/
+theorem io_world_deviations :
+    (wrun 4096 (openWorld [48, 49, 50, 51] .r) [.h .close, .ioOutputName, .ioWrite [65, 66], .ioClose]).1.f.disk = [65, 66, 50, 51] ∧
+    (FileSpec.wrun (openWStream [48, 49, 50, 51] .r) [.h .close, .ioOutputName, .ioWrite [65, 66], .ioClose]).1.s.bytes = [65, 66] ∧
+    (wrun 4096 (openWorld [97] .r) [.h .close, .ioInput, .ioOutput, .ioLines]).2 = [.ok, .ok, .ok, .ok] ∧
+    (FileSpec.wrun (openWStream [97] .r) [.h .close, .ioInput, .ioOutput, .ioLines]).2 = [.ok, .raise, .raise, .nothing] := by
+  refine ⟨by decide +kernel, by decide +kernel, by decide +kernel, by decide +kernel⟩
+
+/-- **lines_iterators**: one call of an iterator made by `io.lines(name)` (`auto = true`) or by `io.lines()` /
+    `f:lines()` (`auto = false`) on the current handle, from any state of the simulation (any read-ahead), CR-free
+    file: it returns what the Spec's iterator returns — the line at the cursor, WITH a last line that has no newline,
+    nil exactly at the end of the file, an error on a closed handle — and the handle is closed afterwards iff it was
+    closed before or (`auto` and the result is nil): `io.lines(name)` closes the file at the end, the others never do. -/
+theorem lines_iterators_partial (R : Nat) (hR : 0 < R) (pend : Bool) (f : LFile) (h : Sim pend f) (auto : Bool)
+    (hcr : (13 : UInt8) ∉ f.disk) :
+    (ioLinesIter R f auto).2 = (FileSpec.step (absOf f) .iter).2 ∧
+    (ioLinesIter R f auto).1.closed =
+      (f.closed || (auto && decide ((FileSpec.step (absOf f) .iter).2 = .vals [none]))) ∧
+    (ioLinesIter R f auto).1.disk = f.disk := by
+  obtain ⟨h1, h2, _⟩ := ioLinesIter_sim hR h auto hcr
+  have hcl := spec_closed_flag (absOf f) .iter
+  simp only at hcl
+  have hby : (FileSpec.step (absOf f) .iter).1.bytes = f.disk := by
+    by_cases hc : f.closed = true
+    · simp [FileSpec.step, absOf, hc]
+    · by_cases hr : f.hasReader = true <;> simp [FileSpec.step, absOf, hc, hr]
+  refine ⟨h1, ?_, ?_⟩
+  · have : (absOf (ioLinesIter R f auto).1).closed = (ioLinesIter R f auto).1.closed := rfl
+    rw [← this, h2]
+    by_cases hx : auto = true ∧ (FileSpec.step (absOf f) .iter).2 = .vals [none]
+    · simp [hx]
+    · rw [if_neg hx, hcl]
+      show f.closed = _
+      cases auto with
+      | false => simp
+      | true =>
+        have : ¬ ((FileSpec.step (absOf f) .iter).2 = .vals [none]) := fun e => hx ⟨rfl, e⟩
+        simp [this]
+  · have : (absOf (ioLinesIter R f auto).1).bytes = (ioLinesIter R f auto).1.disk := rfl
+    rw [← this, h2]
+    by_cases hx : auto = true ∧ (FileSpec.step (absOf f) .iter).2 = .vals [none]
+    · simp [hx, hby]
+    · rw [if_neg hx]; exact hby
+
+/-- **closed_default_file_guard**: an `io` function (`io.read`, `io.write`, `io.flush`, `io.close`, …) whose default
+    slot holds a closed handle — an earlier handle of the file, or the current one after `close` — raises an error
+    and changes nothing: not the handle, not the slots, not a byte of the file. -/
+theorem closed_default_file_guard (R : Nat) (w : World) (sl : Slot) (op : Op) (hro : ∀ m, op ≠ .reopen m)
+    (hs : sl = .stale ∨ (sl = .cur ∧ w.f.closed = true)) :
+    w.onSlot R sl op = (w, .raise) := by
+  rcases hs with rfl | ⟨rfl, hc⟩
+  · rfl
+  · simp [World.onSlot, step_closed R hc op hro]
+
+/-- `io.type(f)` / `tostring(f)` tell an open handle from a closed one, in every state, and change nothing. -/
+theorem io_type_reports_closed (R : Nat) (w : World) :
+    wstep R w .ioType = (w, .vals [some (if w.f.closed then FileSpec.strClosedFile else FileSpec.strFile)]) ∧
+    wstep R w .toStr = (w, .vals [some (if w.f.closed then FileSpec.strFileClosed else FileSpec.strFile)]) ∧
+    FileSpec.strClosedFile ≠ FileSpec.strFile ∧ FileSpec.strFileClosed ≠ FileSpec.strFile :=
+  ⟨rfl, rfl, by decide, by decide⟩
+
+/-- a history that meets the guard of `io_world_refines_cursor_partial` and uses every new operation: `*n` (three
+    numerals, one straddling the 4-byte buffer), `io.input(f)`/`io.output(f)`, `io.read`, `io.write` after a seek,
+    `io.flush`, `io.lines()` + iterator, `io.type`, `io.close()`, a stale default (`io.write` raises), `io.lines(name)`
+    run past the end (closes; the next call raises), `io.input(name)`, an invalid format (raises), `tostring`. -/
+def exampleWOps : List WOp :=
+  [.h (.read [.num, .num]), .ioInput, .ioOutput, .ioRead [.num, .count 1], .h (.seek .cur 0), .ioWrite [32, 55],
+   .ioFlush, .ioLines, .ioIter false, .ioType, .ioClose, .ioType, .ioLinesName, .ioWrite [88], .ioIter true,
+   .ioIter true, .ioIter true, .ioType, .ioInputName, .ioRead [.count 2, .str [120]], .toStr, .h .close]
+
+def exampleWData : Bytes := [49, 50, 32, 9, 45, 51, 46, 53, 101, 49, 32, 32, 52, 32, 33, 32, 32, 32, 32, 32]
+
+example : wguard false (openWStream exampleWData .rp) exampleWOps = true ∧
+    (wrun 4 (openWorld exampleWData .rp) exampleWOps).2 =
+      [.vals [some [49, 50], some [45, 51, 46, 53, 101, 49]], .ok, .ok, .vals [some [52], some [32]], .pos 14, .ok,
+       .ok, .ok, .vals [some [32, 32, 32, 32]], .vals [some FileSpec.strFile], .ok, .vals [some FileSpec.strClosedFile],
+       .ok, .raise, .vals [some [49, 50, 32, 9, 45, 51, 46, 53, 101, 49, 32, 32, 52, 32, 32, 55, 32, 32, 32, 32]],
+       .vals [none], .raise, .vals [some FileSpec.strClosedFile], .ok, .raise, .vals [some FileSpec.strFile], .ok] := by
+  refine ⟨by decide +kernel, by decide +kernel⟩
+
 /-! ## closed_handle_guard -/
 
 /-- **closed_handle_guard**: on a closed handle — whatever its mode, its writer (buffered or not, holding
@@ -177,17 +385,17 @@ def exampleOps : List Op :=
 
 def exampleData : Bytes := [97, 98, 99, 100, 101, 10, 102, 103, 104, 105, 106]
 
-example : Disciplined exampleOps ∧ noBuffering exampleOps ∧ lineSafe exampleData exampleOps ∧
+example : Disciplined exampleOps ∧ noBuffering exampleOps ∧ lineSafe exampleData exampleOps ∧ plainReads exampleOps ∧
     (run 4 (ioOpenFile exampleData .rp) exampleOps).1.disk =
       [97, 98, 88, 89, 101, 10, 90, 103, 104, 105, 106, 33] ∧
     (run 4 (ioOpenFile exampleData .rp) exampleOps).2 = (FileSpec.run (FileSpec.openStream exampleData .rp) exampleOps).2 := by
-  refine ⟨by decide, by decide, by decide, by decide, by decide⟩
+  refine ⟨by decide, by decide, by decide, by decide, by decide, by decide⟩
 
 /-- the hypotheses of `closed_handle_guard` / `cursor_invariant_partial` are satisfiable by non-trivial states:
     a state in the middle of a read (3 bytes of read-ahead) satisfies `Sim`. -/
 example : ∃ f : LFile, f.rbuf.length = 3 ∧ Sim true f :=
   ⟨(step 4 (ioOpenFile exampleData .rp) (.read [.count 1])).1, by decide,
    (step_sim (R := 4) (by decide) (sim_open exampleData .rp) (.read [.count 1]) (by simp) (by simp) rfl
-      (by simp [usesLine])).2.2⟩
+      (by simp [usesLine]) (by decide)).2.2⟩
 
 end GLua.Props.C19
